@@ -88,6 +88,35 @@ def gen(rng, tier):
     return out
 
 
+def known(c, ri, rm, text):
+    """KF2: an impossible joint value gets a confident opinion because the cancellation residue seen by the final
+    inversion's all-zero test is a few machine epsilons, just above the eps guard.  The stages of merge_cond2 are
+    replayed through the public API (harness op merge_probe) and the finding is recognised by the size of that
+    residue for the failing cell: in (eps, 16 eps].  Anything else (a residue within the guard, a large value, NaN,
+    another predicate) is not this finding."""
+    if c.ty not in ("f64", "f32") or ri[0] != "OK":
+        return None
+    if "impossible joint value (cell" not in text:
+        # a mismatch with the model on a case whose impossible cell is this finding is the same finding
+        ps = predicates(c, ri, rm)
+        if text.startswith("entry") and ps and all("impossible joint value (cell" in p_ and known(c, ri, rm, p_) for p_ in ps):
+            return known(c, ri, rm, ps[0])
+        return None
+    k = int(text.split("(cell ")[1].split(")")[0])
+    probe = Case("merge_probe", c.ty, "arr", "own", c.dims, c.nums, mop="-")
+    r = core.run_impl([probe])[0]
+    if r[0] != "OK" or k >= len(r[1]):
+        return None
+    v = r[1][k]
+    e = num.FEPS[c.ty]
+    if not (finite(v) and e < v <= 16 * e):
+        return None
+    for f in core.known_findings().get("findings", []):
+        if f.get("id") == "KF2":
+            return f["what_fails"]
+    return None
+
+
 def predicates(c, ri, rm):
     if ri[0] != "OK":
         return ["merge failed on well-formed tables: %s" % " ".join(map(str, ri[:2]))]
@@ -103,7 +132,7 @@ def predicates(c, ri, rm):
         if e:
             out.append("merged conditional for cell %d is not well-formed: %s" % (k, e))
             break
-    if rm[0] == "OK" and c.tag in ("impossible_cell", "property_example"):
+    if rm[0] == "OK" and c.tag in ("impossible_cell", "property_example", "known_finding", "corpus"):
         for k in range(n1 * n2):
             # the guard makes the cell exactly vacuous or leaves it to rounding noise: no conditioning allowance
             if rm[1][k * (ny + 1) + ny] == 1 and abs(Fraction(vals[k * (ny + 1) + ny]) - 1) > TOL[c.ty] * 4:
@@ -121,6 +150,8 @@ def cross(cases, impl, model):
     out = []
     by = {}
     for i, c in enumerate(cases):
+        if "g" not in c.meta:
+            continue        # replayed inputs of the known findings
         by.setdefault((c.meta["g"], c.ty, c.fam), {})[(c.style, c.meta["side"])] = i
     for key, d in by.items():
         c0 = cases[next(iter(d.values()))]
